@@ -562,6 +562,9 @@ type c01HashCase struct {
 	CtyUint  uint64         `json:"cty_uint,omitempty"`
 	CtyText  string         `json:"cty_text,omitempty"`
 	Location string         `json:"location,omitempty"`
+	// StaleRaw: the caller's Headers still carry raw bytes (of another message: headers re-used as a template); 1:
+	// RawProtected only, 2: both raw fields
+	StaleRaw int `json:"stale_raw,omitempty"`
 }
 
 func hashLen(alg int64) int {
@@ -597,6 +600,15 @@ func checkC01Hash(c c01HashCase) error {
 		return finding("verifier", "%v", err)
 	}
 	h := bridge.Headers(c.Prot, c.Unprot)
+	if c.StaleRaw != 0 {
+		// what a decoder left behind for another envelope signed under the same algorithm
+		stale := rc.Map(rc.E(rc.Int(1), rc.Int(c.Key.Alg)), rc.E(rc.Int(258), rc.Int(-44)), rc.E(rc.Int(260), rc.Text("https://stale.example/")))
+		h.RawProtected = rc.Encode(rc.Bytes(rc.Encode(stale, nil)), nil)
+		if c.StaleRaw == 2 {
+			h.RawUnprotected = rc.Encode(c.Unprot, nil)
+		}
+		stats.Class("envelope-from-headers-with-stale-raw-bytes")
+	}
 	env, err := cose.SignHashEnvelope(refcose.NewEntropy([]byte("henv")), sg, h, c.payload())
 	if err != nil {
 		stats.Class("sign-refused/" + shortErr(err))
@@ -657,6 +669,7 @@ func genHashCase(rt *rapid.T, ho gen.HeaderOpts) c01HashCase {
 	if rapid.Bool().Draw(rt, "has-location") {
 		c.Location = rapid.StringMatching(`https://[a-z]{1,10}\.example/[a-z0-9/]{0,20}`).Draw(rt, "location")
 	}
+	c.StaleRaw = rapid.SampledFrom([]int{0, 0, 1, 2}).Draw(rt, "stale-raw")
 	return c
 }
 
